@@ -178,4 +178,44 @@ theorem src_weekday_set_rs_type_Display : C19_src_weekday_set_rs_type_Display =
 theorem src_weekday_set_rs_type_FromIterator : C19_src_weekday_set_rs_type_FromIterator =
     ["FromIterator", "<", "Weekday", ">", "for", "WeekdaySet", "v1", "<", "T", "IntoIterator", "<", "Item", "Weekday", ">>", "v2", "T", "->", "Self", "v2", "into_iter(", "map(", "Self", "v3", "fold(", "Self", "EMPTY", "Self", "v4"] := by decide +kernel
 
+/-- callee src/format/scan.rs:fn short_month0 -/
+theorem callee_src_format_scan_rs_fn_short_month0 : C19_callee_src_format_scan_rs_fn_short_month0 =
+    ["v1", "&", "str", "->", "ParseResult", "<", "&", "str", "u8", ">", "if", "v1", "len(", "<", "3", "return", "Err(", "TOO_SHORT", "v2", "v1", "as_bytes(", "v3", "match(", "v2", "0", "|", "32", "v2", "1", "|", "32", "v2", "2", "|", "32", "b'j'", "b'a'", "b'n'", "=>", "0", "b'f'", "b'e'", "b'b'", "=>", "1", "b'm'", "b'a'", "b'r'", "=>", "2", "b'a'", "b'p'", "b'r'", "=>", "3", "b'm'", "b'a'", "b'y'", "=>", "4", "b'j'", "b'u'", "b'n'", "=>", "5", "b'j'", "b'u'", "b'l'", "=>", "6", "b'a'", "b'u'", "b'g'", "=>", "7", "b's'", "b'e'", "b'p'", "=>", "8", "b'o'", "b'c'", "b't'", "=>", "9", "b'n'", "b'o'", "b'v'", "=>", "10", "b'd'", "b'e'", "b'c'", "=>", "11", "v4", "=>", "return", "Err(", "INVALID", "Ok(", "&", "v1", "3", "..", "v3"] := by decide +kernel
+
+/-- callee src/format/scan.rs:fn short_weekday -/
+theorem callee_src_format_scan_rs_fn_short_weekday : C19_callee_src_format_scan_rs_fn_short_weekday =
+    ["v1", "&", "str", "->", "ParseResult", "<", "&", "str", "Weekday", ">", "if", "v1", "len(", "<", "3", "return", "Err(", "TOO_SHORT", "v2", "v1", "as_bytes(", "v3", "match(", "v2", "0", "|", "32", "v2", "1", "|", "32", "v2", "2", "|", "32", "b'm'", "b'o'", "b'n'", "=>", "Weekday", "Mon", "b't'", "b'u'", "b'e'", "=>", "Weekday", "Tue", "b'w'", "b'e'", "b'd'", "=>", "Weekday", "Wed", "b't'", "b'h'", "b'u'", "=>", "Weekday", "Thu", "b'f'", "b'r'", "b'i'", "=>", "Weekday", "Fri", "b's'", "b'a'", "b't'", "=>", "Weekday", "Sat", "b's'", "b'u'", "b'n'", "=>", "Weekday", "Sun", "v4", "=>", "return", "Err(", "INVALID", "Ok(", "&", "v1", "3", "..", "v3"] := by decide +kernel
+
+/-- callee src/month.rs:fn from_u32 -/
+theorem callee_src_month_rs_fn_from_u32 : C19_callee_src_month_rs_fn_from_u32 =
+    ["v1", "u32", "->", "Option", "<", "Month", ">", "match", "v1", "1", "=>", "Some(", "Month", "January", "2", "=>", "Some(", "Month", "February", "3", "=>", "Some(", "Month", "March", "4", "=>", "Some(", "Month", "April", "5", "=>", "Some(", "Month", "May", "6", "=>", "Some(", "Month", "June", "7", "=>", "Some(", "Month", "July", "8", "=>", "Some(", "Month", "August", "9", "=>", "Some(", "Month", "September", "10", "=>", "Some(", "Month", "October", "11", "=>", "Some(", "Month", "November", "12", "=>", "Some(", "Month", "December", "v2", "=>", "None"] := by decide +kernel
+
+/-- callee src/naive/date/mod.rs:fn from_mdf -/
+theorem callee_src_naive_date_mod_rs_fn_from_mdf : C19_callee_src_naive_date_mod_rs_fn_from_mdf =
+    ["v1", "i32", "v2", "Mdf", "->", "Option", "<", "NaiveDate", ">", "if", "v1", "<", "MIN_YEAR", "||", "v1", ">", "MAX_YEAR", "return", "None", "Some(", "NaiveDate", "from_yof(", "v1", "<<", "13", "|", "try_opt!(", "v2", "ordinal_and_flags("] := by decide +kernel
+
+/-- callee src/naive/date/mod.rs:fn from_ymd_opt -/
+theorem callee_src_naive_date_mod_rs_fn_from_ymd_opt : C19_callee_src_naive_date_mod_rs_fn_from_ymd_opt =
+    ["v1", "i32", "v2", "u32", "v3", "u32", "->", "Option", "<", "NaiveDate", ">", "v4", "YearFlags", "from_year(", "v1", "if", "Some(", "v5", "Mdf", "new(", "v2", "v3", "v4", "NaiveDate", "from_mdf(", "v1", "v5", "else", "None"] := by decide +kernel
+
+/-- callee src/naive/date/mod.rs:fn leap_year -/
+theorem callee_src_naive_date_mod_rs_fn_leap_year : C19_callee_src_naive_date_mod_rs_fn_leap_year =
+    ["&", "self", "->", "bool", "self", "yof(", "&", "8", "==", "0"] := by decide +kernel
+
+/-- callee src/naive/date/mod.rs:fn yof -/
+theorem callee_src_naive_date_mod_rs_fn_yof : C19_callee_src_naive_date_mod_rs_fn_yof =
+    ["&", "self", "->", "i32", "self", "v1", "get("] := by decide +kernel
+
+/-- callee src/naive/internals.rs:fn from_year -/
+theorem callee_src_naive_internals_rs_fn_from_year : C19_callee_src_naive_internals_rs_fn_from_year =
+    ["v1", "i32", "->", "YearFlags", "v1", "v1", "rem_euclid(", "400", "YearFlags", "from_year_mod_400(", "v1"] := by decide +kernel
+
+/-- callee src/naive/internals.rs:fn from_year_mod_400 -/
+theorem callee_src_naive_internals_rs_fn_from_year_mod_400 : C19_callee_src_naive_internals_rs_fn_from_year_mod_400 =
+    ["v1", "i32", "->", "YearFlags", "YEAR_TO_FLAGS", "v1", "as", "usize"] := by decide +kernel
+
+/-- callee src/naive/internals.rs:fn ordinal_and_flags -/
+theorem callee_src_naive_internals_rs_fn_ordinal_and_flags : C19_callee_src_naive_internals_rs_fn_ordinal_and_flags =
+    ["&", "self", "->", "Option", "<", "i32", ">", "v1", "self", ">>", "3", "match", "MDL_TO_OL", "v1", "as", "usize", "XX", "=>", "None", "v2", "=>", "Some(", "self", "as", "i32", "-", "v2", "as", "i32", "<<", "3"] := by decide +kernel
+
 end Chrono.Pins.C19
